@@ -196,7 +196,7 @@ func sanitize(s string, n int) string {
 
 // strFacts asserts the basic facts about a string-valued term (once per term text).
 func (vc *VC) strFacts(t Term) {
-	if t.Sort != SStr || t.S == "sEmpty" || strings.HasPrefix(t.S, "lit") || strings.HasPrefix(t.S, "|lit") {
+	if t.Sort != SStr || strings.Contains(t.S, "!q") || t.S == "sEmpty" || strings.HasPrefix(t.S, "lit") || strings.HasPrefix(t.S, "|lit") {
 		return
 	}
 	key := "strfacts:" + t.S
